@@ -16,6 +16,31 @@ var hostileAtoms = []string{
 	"‹", "›", "‹×›", "›‹", "\n", "\n\n", "\x00", "\xff", "\xe2\x80", "\xe2", "\x80\xb9", "%s", "%!", "",
 }
 
+// padSizes: lengths of the filler appended to about one string in
+// twenty, around the powers of two where buffers, titles and limits
+// tend to sit.
+var padSizes = []int{31, 64, 127, 128, 200, 255, 256, 257, 300, 512, 1024, 4097}
+
+// pad draws the filler of one string: a run of one letter (usually
+// none; rapid shrinks towards none).
+func pad(t *rapid.T, label string) string {
+	if rapid.IntRange(0, 19).Draw(t, label+"#haspad") != 19 {
+		return ""
+	}
+	return strings.Repeat("p", rapid.SampledFrom(padSizes).Draw(t, label+"#pad"))
+}
+
+// withPad places the filler before or after the rest.
+func withPad(t *rapid.T, label, s string) string {
+	if p := pad(t, label); p != "" {
+		if rapid.Bool().Draw(t, label+"#padfirst") {
+			return p + s
+		}
+		return s + p
+	}
+	return s
+}
+
 // Regular returns a generator of regular strings with unique tokens.
 func Regular() StrGen {
 	n := 0
@@ -41,7 +66,7 @@ func Regular() StrGen {
 				s = tok
 			}
 		}
-		return s
+		return withPad(t, label, s)
 	}
 }
 
@@ -58,7 +83,29 @@ func Hostile() StrGen {
 		for i, k := 0, rapid.IntRange(0, 2).Draw(t, label+"#m"); i < k; i++ {
 			post += rapid.SampledFrom(append(hostileAtoms, regularAtoms...)).Draw(t, label+"#b")
 		}
-		return pre + tok + post
+		return withPad(t, label, pre+tok+post)
+	}
+}
+
+// markerFreeAtoms: the hostile atoms that are valid UTF-8 without
+// redaction markers (newlines at any position, NUL, printf verbs).
+var markerFreeAtoms = []string{"\n", "\n\n", "\x00", "%s", "%!", "\n", "\r\n"}
+
+// MarkerFree returns a generator of non-empty valid UTF-8 strings
+// without marker runes, with newlines at any position.
+func MarkerFree() StrGen {
+	n := 0
+	return func(t *rapid.T, label string) string {
+		n++
+		tok := fmt.Sprintf("Q%03dZ", n)
+		pre, post := "", ""
+		for i, k := 0, rapid.IntRange(0, 2).Draw(t, label+"#n"); i < k; i++ {
+			pre += rapid.SampledFrom(append(markerFreeAtoms, regularAtoms...)).Draw(t, label+"#a")
+		}
+		for i, k := 0, rapid.IntRange(0, 2).Draw(t, label+"#m"); i < k; i++ {
+			post += rapid.SampledFrom(append(markerFreeAtoms, regularAtoms...)).Draw(t, label+"#b")
+		}
+		return withPad(t, label, pre+tok+post)
 	}
 }
 
@@ -95,13 +142,33 @@ func SpecRegular(s *Spec) bool {
 	return true
 }
 
+// SpecMarkerFree tells whether all generated strings of the tree are
+// non-empty valid UTF-8 without the redaction marker runes (newlines
+// may be anywhere).
+func SpecMarkerFree(s *Spec) bool {
+	for _, n := range s.Nodes() {
+		if n.K == "sentinel" {
+			continue
+		}
+		for i, x := range n.S {
+			if x == "" && optionalEmpty(n.K, i) {
+				continue
+			}
+			if x == "" || !utf8.ValidString(x) || strings.ContainsAny(x, "‹›") {
+				return false
+			}
+		}
+	}
+	return true
+}
+
 func optionalEmpty(k string, i int) bool {
 	switch k {
 	case "unimpl":
 		return i == 1
 	case "issuelink":
 		return i == 0
-	case "netop":
+	case "netop", "netopsrc":
 		return i == 1
 	}
 	return false
@@ -119,10 +186,29 @@ func optionalEmpty(k string, i int) bool {
 var emptyAnywhere = []string{"hint", "detail"}
 var emptyAtRoot = []string{"uwrapoverride", "uopt", "rwrapfull", "handledmsg"}
 
+// A Mark reference that is a bare leaf may have the empty message:
+// nothing but the mark is taken from it.
+var emptyAsMarkRef = []string{"new", "goerr", "pkgnew", "uleafptr"}
+
+// emptyOK lists the nodes of the tree whose first string may be empty.
+func emptyOK(s *Spec) map[*Spec]bool {
+	ok := map[*Spec]bool{}
+	for i, n := range s.Nodes() {
+		if len(n.S) > 0 && (in(n.K, emptyAnywhere) || (i == 0 && in(n.K, emptyAtRoot))) {
+			ok[n] = true
+		}
+		if n.K == "mark" && len(n.X) == 1 && n.X[0] != nil && in(n.X[0].K, emptyAsMarkRef) && len(n.X[0].S) > 0 {
+			ok[n.X[0]] = true
+		}
+	}
+	return ok
+}
+
 // SprinkleEmpty sets some of those strings to "".
 func SprinkleEmpty(t *rapid.T, s *Spec) {
-	for i, n := range s.Nodes() {
-		if (in(n.K, emptyAnywhere) || (i == 0 && in(n.K, emptyAtRoot))) && len(n.S) > 0 && rapid.IntRange(0, 3).Draw(t, "empty") == 0 {
+	ok := emptyOK(s)
+	for _, n := range s.Nodes() {
+		if ok[n] && rapid.IntRange(0, 3).Draw(t, "empty") == 0 {
 			n.S[0] = ""
 		}
 	}
@@ -131,12 +217,13 @@ func SprinkleEmpty(t *rapid.T, s *Spec) {
 // SpecRegularOrEmpty: every generated string is regular, or empty at
 // a position where EmptyOK allows it.
 func SpecRegularOrEmpty(s *Spec) bool {
+	ok := emptyOK(s)
 	for _, n := range s.Nodes() {
 		if n.K == "sentinel" {
 			continue
 		}
 		for i, x := range n.S {
-			if x == "" && (optionalEmpty(n.K, i) || (i == 0 && in(n.K, emptyAnywhere)) || (i == 0 && n == s && in(n.K, emptyAtRoot))) {
+			if x == "" && (optionalEmpty(n.K, i) || (i == 0 && ok[n])) {
 				continue
 			}
 			if !IsRegular(x) {
